@@ -10,9 +10,9 @@ git -C /repo worktree add -q --detach $WT HEAD || exit 2
 {
 cp -r $SEED $WT/_seed
 cd $WT
-/venv/bin/python _seed/demo.py >/dev/null 2>&1; echo "demo_clean_rc=$?"
+PYTHONPATH=$WT /venv/bin/python _seed/demo.py >/dev/null 2>&1; echo "demo_clean_rc=$?"
 if git apply _seed/patch.diff 2>/dev/null || git apply -3 _seed/patch.diff 2>/dev/null || patch -p1 -s < _seed/patch.diff; then echo "patch_applied=1"; else echo "patch_applied=0"; fi
-/venv/bin/python _seed/demo.py >/dev/null 2>&1; echo "demo_patched_rc=$?"
+PYTHONPATH=$WT /venv/bin/python _seed/demo.py >/dev/null 2>&1; echo "demo_patched_rc=$?"
 /venv/bin/python -m pytest -q -p no:cacheprovider --timeout=900 -x -q ciw >/dev/null 2>&1; echo "tests_rc=$?"
 } > $OUT/$NAME.confirm 2>&1
 git -C /repo worktree remove --force $WT 2>/dev/null; rm -rf $WT
